@@ -8,6 +8,15 @@ Functions under contract (real source, whole functions):
   Generator.exitIfEquation      same fold over equation blocks, first true branch wins
   Generator.exitEquation        residual = left - right
   ForLoop.__init__              loop values = Modelica's range {start + k*step <= stop}
+  Generator.exitForEquation     the loop body is one function of (index, indexed symbols, free symbols) mapped over EVERY loop
+                                value, each formal bound to its own actual (x_j[indices_j], transposed iff flagged), free symbols
+                                not iterated; the body stacks the equations in order; an empty range contributes nothing
+  Generator.exitForStatement    same mapping; iteration i assigns variable j from row j, column i, iterations in loop order,
+                                statements in body order inside an iteration
+  Generator.exitIfStatement / exitAssignmentStatement   first true branch wins per assigned variable
+  Generator.get_function        algorithm sections: statement k is substituted with the values assigned by statements < k
+                                (sequential semantics), outputs in declaration order, translated once
+  Generator.exitEquation (shapes)  surplus outputs of a function call are discarded from the END, row/column mismatch transposes
 CasADi values are opaque terms recording which method produced them; the numeric meaning of each
 CasADi method is assumed (sampled by the bounded replay, which evaluates real residuals).
 """
@@ -18,7 +27,7 @@ import subprocess
 import z3
 
 from pyvc import ops
-from pyvc.values import Ext, NoOp, PyRaise, Unsupported, VBound, VClass, VDict, VList, VObj, stub
+from pyvc.values import Ext, NoOp, PyRaise, Unsupported, VBound, VClass, VDict, VList, VObj, VSlice, stub
 
 from .api_common import CollectionsStub, ModuleStub
 from .ast_common import AstFactory, base_modules
@@ -76,7 +85,7 @@ class MXT(Ext):
 def install(eng):
     base_modules(eng)
     mx = VClass("MX")
-    mx.constructor = lambda eng, c, a, k: a[0] if isinstance(a[0], MXT) else MXT("const", (a[0],))
+    mx.constructor = lambda eng, c, a, k: MXT("empty") if not a else (a[0] if isinstance(a[0], MXT) else MXT("const", (a[0],)))
     fns = {}
     for nme in ("if_else", "mtimes", "vertcat", "transpose", "sum1", "fmin", "fmax"):
         fns[nme] = stub((lambda n: lambda eng, *a: MXT("ca." + n, a))(nme))
@@ -283,9 +292,409 @@ def _get_integer(node, value):
     return gi
 
 
+# ---------------------------------------------------------------------------------------------
+# round 3: for-loop mapping, algorithm sections (functions), shape adaptation of exitEquation
+class MXSym(MXT):
+    """a named CasADi symbol"""
+
+    def __init__(self, name, shape=(1, 1)):
+        MXT.__init__(self, "sym:" + name, (), shape)
+        self.nm = name
+
+    def sym_getattr(self, eng, name):
+        if name == "name":
+            return stub(lambda eng: self.nm)
+        return MXT.sym_getattr(self, eng, name)
+
+
+class Vals(Ext):
+    """the loop's value array (np.ndarray of the range); only its length matters here"""
+
+    def __init__(self, n):
+        self.n = n
+
+    def sym_len(self, eng):
+        return self.n
+
+
+class FnRec(Ext):
+    """ca.Function / mapped function: records how it was built and called"""
+    type_names = ("Function",)
+
+    def __init__(self, log, name, inputs, outputs, parent=None, mapinfo=None):
+        self.log, self.name, self.inputs, self.outputs, self.parent, self.mapinfo = log, name, inputs, outputs, parent, mapinfo
+
+    def sym_getattr(self, eng, name):
+        me = self
+        if name == "map":
+            def mp(eng, nm, mode, n, nonrep, nonrep_out):
+                return FnRec(me.log, nm, me.inputs, me.outputs, parent=me, mapinfo=(mode, n, [x for x in eng.iterate(nonrep)], eng.iterate(nonrep_out)))
+            return stub(mp)
+        if name == "call":
+            def cl(eng, args, *modes):
+                a = eng.iterate(args)
+                out = MXT("call-result", (me, tuple(a)))
+                me.log.append(("call", me, a, out))
+                return VList([out])
+            return stub(cl)
+        raise Unsupported("Function.%s" % name)
+
+
+def install_loops(eng, log):
+    gm = install(eng)
+    cas = eng.ext_modules["casadi"]
+    cas.attrs["vec"] = stub(lambda eng, x: MXT("ca.vec", (x,)))
+    cas.attrs["vcat"] = stub(lambda eng, xs: MXT("ca.vcat", tuple(eng.iterate(xs))))
+    fn = VClass("Function")
+    fn.constructor = lambda eng, c, a, k: FnRec(log, a[0], eng.iterate(a[1]), eng.iterate(a[2]))
+    cas.attrs["Function"] = fn
+    return gm, cas
+
+
+SYMVAR_ORDERS = [lambda idx, ks, fr: fr + ks + [idx], lambda idx, ks, fr: [idx] + ks + fr,
+                 lambda idx, ks, fr: ks[::-1] + fr[::-1] + [idx], lambda idx, ks, fr: fr[:1] + [idx] + ks + fr[1:]]
+
+
+def _loop_fixture(eng, gm, cas, A, nk, nfree, statement_form):
+    """a Generator with one open for-loop over `n` values, nk indexed symbols, nfree free symbols"""
+    n = eng.input("number_of_loop_values", eng.fresh_int("nvals"))
+    eng.assume(n >= 0)
+    idx = MXSym("i")
+    ks = [MXSym("x%d[i]" % j) for j in range(nk)]
+    frees = [MXSym("p%d" % j) for j in range(nfree)]
+    origs = [MXSym("x%d" % j, shape=(5, 1)) for j in range(nk)]
+    transposes = [bool(eng.choice(2)) for _ in range(nk)]
+    eng.input("transpose_flags", transposes)
+    order = eng.choice(len(SYMVAR_ORDERS))
+    eng.input("symvar_order", order)
+    cas.attrs["symvar"] = stub(lambda eng, e: VList(SYMVAR_ORDERS[order](idx, ks, frees)))
+    fl_cls = eng.module_global(gm, "ForLoop")
+    nt = eng.module_global(gm, "ForLoopIndexedSymbol")
+    isyms = VDict()
+    isyms.ordered = True
+    index_terms = []
+    for j in range(nk):
+        it = MXT("indices%d" % j)
+        index_terms.append(it)
+        isyms.keys.append(ks[j])
+        isyms.vals.append(eng.call(nt, [A.ref("x%d" % j), transposes[j], it], {}))
+    vals = Vals(n)
+    loop = VObj(fl_cls, {"values": vals, "index_variable": idx, "name": "i", "indexed_symbols": isyms})
+    klass = VObj(VClass("Class"), {"name": "M"})
+    nodes = VDict([(klass, VDict([("x%d" % j, origs[j]) for j in range(nk)]))])
+    model = VObj(VClass("Model"), {"delay_states": VList([]), "delay_arguments": VList([]), "inputs": VList([])})
+    mode = "inline" if eng.choice(2) else "serial"
+    g = VObj(eng.module_global(gm, "Generator"), {"src": VDict(), "for_loops": VList([loop]), "model": model, "nodes": nodes,
+                                                   "entered_classes": VList([klass]), "map_mode": mode, "function_mode": (True, False)})
+    return dict(n=n, idx=idx, ks=ks, frees=frees, origs=origs, transposes=transposes, index_terms=index_terms, vals=vals, g=g, mode=mode, loop=loop)
+
+
+def _check_mapping(eng, fx, log, body_expr, prefix):
+    """(P) the loop body function is mapped over every loop value with each formal argument bound to its own actual"""
+    calls = [c for c in log if c[0] == "call"]
+    ok = len(calls) == 1
+    if not ok:
+        eng.prove(prefix + ".body_mapped_once", False)
+        return None
+    _, fmap, actual, out = calls[0]
+    eng.prove(prefix + ".body_mapped_once", z3.BoolVal(fmap.mapinfo is not None and fmap.parent is not None and fmap.parent.mapinfo is None))
+    F = fmap.parent
+    formals = F.inputs
+    k, m = len(fx["ks"]), len(fx["frees"])
+    want_formals = [fx["idx"]] + fx["ks"]
+    head_ok = len(formals) == 1 + k + m and all(a is b for a, b in zip(formals[:1 + k], want_formals))
+    tail = formals[1 + k:]
+    tail_ok = len(tail) == m and all(any(t is f for f in fx["frees"]) for t in tail) and len({id(t) for t in tail}) == m
+    eng.prove(prefix + ".formals_are_index_then_indexed_symbols_then_each_free_symbol_once", z3.BoolVal(bool(head_ok and tail_ok)))
+    eng.prove(prefix + ".body_is_the_loop_body", z3.BoolVal(len(F.outputs) == 1 and F.outputs[0] is body_expr))
+    mode, nmap, nonrep, nonrep_out = fmap.mapinfo
+    eng.prove(prefix + ".mapped_over_every_loop_value", ops.to_arith(nmap) == fx["n"])
+    eng.prove(prefix + ".map_mode_is_the_configured_one", z3.BoolVal(mode == fx["mode"]))
+    eng.prove(prefix + ".only_the_free_symbols_are_not_iterated", z3.BoolVal(sorted(nonrep) == list(range(1 + k, 1 + k + m)) and nonrep_out == []))
+    # actuals: values, then x_j[indices_j] (transposed iff flagged), then the free symbols in the formals' order
+    act_ok = len(actual) == len(formals) and actual[0] is fx["vals"]
+    for j in range(k):
+        if not act_ok:
+            break
+        a = actual[1 + j]
+        if fx["transposes"][j]:
+            act_ok = isinstance(a, MXT) and a.kind == "ca.transpose" and len(a.args) == 1
+            a = a.args[0] if act_ok else None
+        act_ok = act_ok and isinstance(a, MXT) and a.kind == "getitem" and a.args[0] is fx["origs"][j] and a.args[1] is fx["index_terms"][j]
+    act_ok = act_ok and all(a is f for a, f in zip(actual[1 + k:], tail))
+    eng.prove(prefix + ".each_formal_bound_to_its_own_actual", z3.BoolVal(bool(act_ok)))
+    return out
+
+
+def h_for_equation(eng):
+    log = []
+    gm, cas = install_loops(eng, log)
+    A = AstFactory(eng)
+    nk, nfree = eng.choice(4), eng.choice(3)
+    eng.input("indexed_symbols", nk)
+    eng.input("free_symbols", nfree)
+    fx = _loop_fixture(eng, gm, cas, A, nk, nfree, False)
+    neq = 1 + eng.choice(2)
+    eqs = [A.ref("eq%d" % j) for j in range(neq)]
+    eterms = [MXT("residual%d" % j) for j in range(neq)]
+    g = fx["g"]
+    eng.call_contracts["Generator.get_mx"] = lambda eng, args, kw: next(t for e, t in zip(eqs, eterms) if e is args[1])
+    tree = VObj(VClass("ForEquation"), {"equations": VList(eqs)})
+    eng.call(VBound(eng.find_function(GEN, "Generator.exitForEquation"), g), [tree], {})
+    r = ops.getitem(eng, g.fields["src"], tree)
+    eng.prove("forloop.loop_is_closed", z3.BoolVal(len(g.fields["for_loops"].items) == 0))
+    if not log:
+        eng.cover("forloop.empty")
+        eng.prove("forloop.empty_range_contributes_no_equation", z3.And(fx["n"] == 0, z3.BoolVal(isinstance(r, MXT) and r.kind == "empty")))
+        return
+    eng.cover("forloop.mapped")
+    eng.prove("forloop.nonempty_range_is_mapped", fx["n"] > 0)
+    body = None
+    calls = [c for c in log if c[0] == "call"]
+    if calls and calls[0][1].parent is not None:
+        outs = calls[0][1].parent.outputs
+        body = outs[0] if len(outs) == 1 else None
+    body_ok = isinstance(body, MXT) and body.kind == "ca.vcat" and len(body.args) == neq and \
+        all(isinstance(v, MXT) and v.kind == "ca.vec" and v.args[0] is t for v, t in zip(body.args, eterms))
+    eng.prove("forloop.body_stacks_the_equations_in_order", z3.BoolVal(bool(body_ok)))
+    out = _check_mapping(eng, fx, log, body, "forloop")
+    eng.prove("forloop.result_is_the_mapped_residual", z3.BoolVal(out is not None and isinstance(r, MXT) and r.kind == "T" and r.args[0] is out))
+
+
+class ValsC(Vals):
+    pass
+
+
+def h_for_statement(eng):
+    log = []
+    gm, cas = install_loops(eng, log)
+    A = AstFactory(eng)
+    nk, nfree = eng.choice(3), eng.choice(2)
+    eng.input("indexed_symbols", nk)
+    eng.input("free_symbols", nfree)
+    fx = _loop_fixture(eng, gm, cas, A, nk, nfree, True)
+    nvals = eng.choice(4)
+    eng.assume(fx["n"] == nvals)
+    fx["vals"].n = nvals
+    ns = 1 + eng.choice(2)
+    asg = eng.module_global(gm, "Assignment")
+    stmts, rights, rterms, lefts = [], [], [], []
+    for j in range(ns):
+        rn = A.ref("rhs%d" % j)
+        st = VObj(VClass("AssignmentStatement"), {"right": rn, "left": VList([A.ref("y%d" % j)])})
+        stmts.append(st)
+        rights.append(rn)
+        rterms.append(MXT("rhs%d" % j))
+        lefts.append(MXSym("y%d" % j))
+    table = [(rn, t) for rn, t in zip(rights, rterms)] + [(st, VList([eng.call(asg, [l, t], {})])) for st, l, t in zip(stmts, lefts, rterms)]
+    eng.call_contracts["Generator.get_mx"] = lambda eng, args, kw: next(v for k, v in table if k is args[1])
+    g = fx["g"]
+    tree = VObj(VClass("ForStatement"), {"statements": VList(stmts)})
+    eng.call(VBound(eng.find_function(GEN, "Generator.exitForStatement"), g), [tree], {})
+    r = ops.getitem(eng, g.fields["src"], tree)
+    items = eng.iterate(r)
+    if nvals == 0:
+        eng.cover("forstmt.empty")
+        eng.prove("forstmt.empty_range_assigns_nothing", z3.BoolVal(items == [] and not log))
+        return
+    eng.cover("forstmt.mapped")
+    calls = [c for c in log if c[0] == "call"]
+    body = calls[0][1].parent.outputs[0] if calls and calls[0][1].parent is not None and len(calls[0][1].parent.outputs) == 1 else None
+    body_ok = isinstance(body, MXT) and body.kind == "ca.vcat" and len(body.args) == ns and \
+        all(isinstance(v, MXT) and v.kind == "ca.vec" and v.args[0] is t for v, t in zip(body.args, rterms))
+    eng.prove("forstmt.body_stacks_the_right_hand_sides_in_order", z3.BoolVal(bool(body_ok)))
+    out = _check_mapping(eng, fx, log, body, "forstmt")
+    # (P) iteration i assigns row j of column i to the j-th assigned variable, iterations in loop order
+    ok = out is not None and len(items) == nvals * ns
+    for i in range(nvals):
+        for j in range(ns):
+            if not ok:
+                break
+            a = items[i * ns + j]
+            lf, rt = a.fields.get("left"), a.fields.get("right")
+            ok = lf is lefts[j] and isinstance(rt, MXT) and rt.kind == "T" and isinstance(rt.args[0], MXT) and \
+                rt.args[0].kind == "getitem" and rt.args[0].args[0] is out and rt.args[0].args[1] == (j, i)
+    eng.prove("forstmt.iteration_i_assigns_variable_j_from_row_j_column_i", z3.BoolVal(bool(ok)))
+
+
+def h_assignment_and_if_statement(eng):
+    gm = install(eng)
+    A = AstFactory(eng)
+    asg = eng.module_global(gm, "Assignment")
+    k = 1 + eng.choice(3)          # branches with a condition (+ else)
+    nv = 1 + eng.choice(2)         # variables assigned in every branch
+    eng.input("branches_with_condition", k)
+    eng.input("assigned_variables", nv)
+    lhs = [MXSym("v%d" % j) for j in range(nv)]
+    conds = [A.ref("c%d" % i) for i in range(k)]
+    cterms = [MXT("cond%d" % i) for i in range(k)]
+    table = list(zip(conds, cterms))
+    blocks, rhs = [], []
+    for b in range(k + 1):
+        stmts, row = [], []
+        for j in range(nv):
+            st = VObj(VClass("AssignmentStatement"), {})
+            t = MXT("rhs_b%d_v%d" % (b, j))
+            table.append((st, VList([eng.call(asg, [lhs[j], t], {})])))
+            stmts.append(st)
+            row.append(t)
+        blocks.append(VList(stmts))
+        rhs.append(row)
+    g = gen_obj(eng, gm, table)
+    tree = VObj(VClass("IfStatement"), {"conditions": VList(conds + [True]), "blocks": VList(blocks)})
+    eng.call(VBound(eng.find_function(GEN, "Generator.exitIfStatement"), g), [tree], {})
+    eng.cover("ifstmt.done")
+    items = eng.iterate(ops.getitem(eng, g.fields["src"], tree))
+    ok = len(items) == nv
+    for j in range(nv):
+        if not ok:
+            break
+        a = items[j]
+        ok = a.fields.get("left") is lhs[j] and shape_of(a.fields.get("right")) == expected_ite(cterms, [rhs[b][j] for b in range(k + 1)])
+    eng.prove("ifstmt.each_variable_gets_the_first_true_branch", z3.BoolVal(bool(ok)))
+    # assignment statement: every left-hand component gets the (one) right-hand expression, in order
+    nl = 1 + eng.choice(2)
+    lrefs = [A.ref("l%d" % j) for j in range(nl)]
+    lterms = [MXSym("l%d" % j) for j in range(nl)]
+    rn, rt = A.ref("r"), MXT("rhs")
+    g2 = gen_obj(eng, gm, list(zip(lrefs, lterms)) + [(rn, rt)])
+    st = VObj(VClass("AssignmentStatement"), {"left": VList(lrefs), "right": rn})
+    eng.call(VBound(eng.find_function(GEN, "Generator.exitAssignmentStatement"), g2), [st], {})
+    its = eng.iterate(ops.getitem(eng, g2.fields["src"], st))
+    ok2 = len(its) == nl and all(a.fields.get("left") is l and a.fields.get("right") is rt for a, l in zip(its, lterms))
+    eng.prove("assign.each_left_component_assigned_the_right_hand_side", z3.BoolVal(bool(ok2)))
+
+
+def h_get_function(eng):
+    """get_function: algorithm sections have sequential-assignment semantics"""
+    gm = install(eng)
+    A = AstFactory(eng)
+    sublog = []
+
+    def substitute(eng, exprs, keys, vals):
+        e, k, v = eng.iterate(exprs), eng.iterate(keys), eng.iterate(vals)
+        outs = [MXT("subst", (x, tuple(k), tuple(v))) for x in e]
+        sublog.append((e, k, v, outs))
+        return VList(outs)
+    cas = eng.ext_modules["casadi"]
+    cas.attrs["substitute"] = stub(substitute)
+    flog = []
+    fn = VClass("Function")
+    fn.constructor = lambda eng, c, a, k: FnRec(flog, a[0], eng.iterate(a[1]), eng.iterate(a[2]))
+    cas.attrs["Function"] = fn
+    asg = eng.module_global(gm, "Assignment")
+    # declaration shapes: kinds in declaration order
+    DECLS = [["input", "output"], ["input", "input", "output"], ["input", "tmp", "output"], ["output", "input", "tmp", "output"],
+             ["input", "tmp", "tmp", "output", "input"]]
+    decl = DECLS[eng.choice(len(DECLS))]
+    eng.input("declarations", decl)
+    syms, terms = [], []
+    symbols = VDict()
+    for j, kd in enumerate(decl):
+        s = VObj(VClass("Symbol"), {"name": "s%d" % j, "prefixes": VList([] if kd == "tmp" else [kd])})
+        t = MXSym("s%d" % j)
+        syms.append(s)
+        terms.append(t)
+        symbols.keys.append("s%d" % j)
+        symbols.vals.append(s)
+    ins = [t for t, kd in zip(terms, decl) if kd == "input"]
+    outs = [t for t, kd in zip(terms, decl) if kd == "output"]
+    tmps = [t for t, kd in zip(terms, decl) if kd == "tmp"]
+    assignable = tmps + outs
+    # statements: every tmp and output is assigned at least once, in a chosen order, with a possible reassignment
+    ORDERS = [lambda a: a, lambda a: a + a[:1], lambda a: a[:1] + a]
+    seq = ORDERS[eng.choice(len(ORDERS))](assignable)
+    eng.input("assignment_sequence", [t.nm for t in seq])
+    stmts, rights = [], []
+    table = list(zip(syms, terms))
+    for j, l in enumerate(seq):
+        st = VObj(VClass("AssignmentStatement"), {})
+        r = MXT("rhs%d" % j)
+        table.append((st, VList([eng.call(asg, [l, r], {})])))
+        stmts.append(st)
+        rights.append(r)
+    ftree = VObj(VClass("Class"), {"name": "f", "symbols": symbols, "statements": VList(stmts)})
+    root = VObj(VClass("Tree"), {"classes": VDict([("f", ftree)])})
+    g = gen_obj(eng, gm, table)
+    g.fields.update({"functions": VDict(), "root": root})
+    fobj = eng.call(VBound(eng.find_function(GEN, "Generator.get_function"), g), ["f"], {})
+    eng.cover("fn.done")
+    # spec: sequential environment
+    env = [(t, t) for t in ins]
+
+    def lookup(e, key):
+        for a, b in e:
+            if a is key:
+                return b
+        return None
+
+    def same_env(keys, vals, e):
+        return len(keys) == len(vals) == len(e) and all(lookup(e, kk) is vv for kk, vv in zip(keys, vals)) and len({id(x) for x in keys}) == len(keys)
+    ok = len(sublog) == len(seq) + 1
+    for j, l in enumerate(seq):
+        if not ok:
+            break
+        e, kk, vv, res = sublog[j]
+        ok = len(e) == 1 and e[0] is rights[j] and same_env(kk, vv, env)
+        if ok:
+            env = [(a, b) for a, b in env if a is not l] + [(l, res[0])]
+    eng.prove("fn.each_statement_sees_the_values_assigned_before_it", z3.BoolVal(bool(ok)))
+    if not ok:
+        return
+    e, kk, vv, res = sublog[-1]
+    fin_ok = len(e) == len(outs) and all(x is lookup(env, o) for x, o in zip(e, outs)) and len(kk) == len(tmps) and \
+        all(a is b for a, b in zip(kk, tmps)) and all(v is lookup(env, t) for v, t in zip(vv, tmps))
+    eng.prove("fn.outputs_are_the_final_values_in_declaration_order", z3.BoolVal(bool(fin_ok)))
+    f_ok = isinstance(fobj, FnRec) and fobj.name == "f" and len(fobj.inputs) == len(ins) and all(a is b for a, b in zip(fobj.inputs, ins)) and \
+        len(fobj.outputs) == len(res) and all(a is b for a, b in zip(fobj.outputs, res))
+    eng.prove("fn.signature_is_inputs_and_outputs_in_declaration_order", z3.BoolVal(bool(f_ok)))
+    again = eng.call(VBound(eng.find_function(GEN, "Generator.get_function"), g), ["f"], {})
+    eng.prove("fn.translated_once_per_function", z3.BoolVal(again is fobj and len(sublog) == len(seq) + 1))
+
+
+def h_equation_shapes(eng):
+    """shape adaptation in exitEquation: truncation of a function's outputs, transposition"""
+    gm = install(eng)
+    A = AstFactory(eng)
+    CASES = [("equal", (3, 1), (3, 1), False, False), ("call-right-longer", (2, 1), (3, 1), True, False), ("call-left-longer", (3, 1), (2, 1), False, True),
+             ("row-vs-column", (1, 3), (3, 1), False, False), ("call-right-same", (3, 1), (3, 1), True, False), ("plain-longer-right", (2, 1), (3, 1), False, False)]
+    name, ls, rs, rcall, lcall = CASES[eng.choice(len(CASES))]
+    eng.input("case", name)
+    lt, rt = MXT("left", shape=ls), MXT("right", shape=rs)
+    # after flattening, the operator of a call of a user function is the function's full name (a string)
+    l = A.expr("f", A.ref("a")) if lcall else A.ref("l")
+    r = A.expr("f", A.ref("a")) if rcall else A.ref("r")
+    g = gen_obj(eng, gm, [(l, lt), (r, rt)])
+    fcls = VObj(VClass("Class"), {"name": "f"})
+    g.fields["root"] = VObj(VClass("Tree"), {"classes": VDict([("f", fcls)])})
+    tree = A.new("Equation", left=l, right=r)
+    eng.call(VBound(eng.find_function(GEN, "Generator.exitEquation"), g), [tree], {})
+    eng.cover("eqshape.done")
+    res = ops.getitem(eng, g.fields["src"], tree)
+    ok = isinstance(res, MXT) and res.kind == "binop:Sub"
+    a, b = (res.args if ok else (None, None))
+
+    def is_head(t, of, n):
+        return isinstance(t, MXT) and t.kind == "getitem" and t.args[0] is of and isinstance(t.args[1], VSlice) and \
+            t.args[1].start == 0 and t.args[1].stop == n and t.args[1].step in (None, 1)
+    if name in ("equal", "call-right-same", "plain-longer-right"):
+        want = a is lt and b is rt
+    elif name == "call-right-longer":
+        want = a is lt and is_head(b, rt, 2)
+    elif name == "call-left-longer":
+        want = is_head(a, lt, 2) and b is rt
+    else:
+        want = a is lt and isinstance(b, MXT) and b.kind == "ca.transpose" and b.args[0] is rt
+    eng.prove("eq.residual_is_left_minus_right_after_discarding_surplus_function_outputs", z3.BoolVal(bool(ok and want)), case=name, got=repr(res))
+
+
 HARNESSES = [("Generator.exitExpression/operators", h_operator_dispatch), ("Generator.exitIfExpression", h_if_expression),
-             ("Generator.exitIfEquation", h_if_equation), ("Generator.exitEquation", h_equation), ("ForLoop.__init__", h_for_range)]
-EXPECTED_COVER = {"op.done", "ifexpr.done", "ifeq.done", "eq.done", "range.done"}
+             ("Generator.exitIfEquation", h_if_equation), ("Generator.exitEquation", h_equation), ("ForLoop.__init__", h_for_range),
+             ("Generator.exitForEquation", h_for_equation), ("Generator.exitForStatement", h_for_statement),
+             ("Generator.exitIfStatement+exitAssignmentStatement", h_assignment_and_if_statement),
+             ("Generator.get_function", h_get_function), ("Generator.exitEquation/shapes", h_equation_shapes)]
+EXPECTED_COVER = {"op.done", "ifexpr.done", "ifeq.done", "eq.done", "range.done", "forloop.empty", "forloop.mapped", "forstmt.empty", "forstmt.mapped",
+                  "ifstmt.done", "fn.done", "eqshape.done"}
 BOUNDED = True
 LEVEL = "proof"
 TRUSTED = ["pyvc VC generator", "z3 5.1.0",
@@ -294,13 +703,14 @@ TRUSTED = ["pyvc VC generator", "z3 5.1.0",
            "interface facts (which attributes casadi.MX has) are read from the installed package by tools/introspect_casadi.py on every run"]
 ASSUMPTIONS = [
     "operator list of the statement: + - / ^ (and element-wise forms), * as matrix product, relations incl. <>, not/and/or, min/max/abs, elementary functions; 1-4 if branches; all integer loop bounds and non-zero steps",
-    "arrays / matrix products' numeric layout, interpolation, user functions with algorithm sections (get_function) and for-loop mapping are outside the contracts; the replay samples for-loops and functions",
-    "shape adaptation branches of exitEquation (function-output truncation, transposition) are not under contract (equal shapes assumed)",
+    "arrays / matrix products' numeric layout and interpolation are outside the contracts",
+    "for-loop mapping: 0-3 indexed symbols, 0-2 free symbols, 1-2 body equations/statements, four orders of ca.symvar's result, any number of loop values (symbolic) for equations and 0-3 for statements; delayed symbols inside for-loops (the delay branch of exitForEquation) are outside the contracts",
+    "algorithm sections: five declaration patterns (inputs/outputs/protected in any order), every assignable variable assigned once plus one reassignment; nested for/if statements inside a function are composed from the statement contracts, not proved as a whole",
 ]
 EXPLANATION = "Dispatch table against introspected CasADi interface, if-folds, residual sign, loop range."
 MANIFEST = {
     "category": "proof",
-    "text": "exitExpression is executed for every operator of the statement against the interface of the installed CasADi (introspected each run): the dispatch reaches an existing method that denotes the Modelica operator on the operands in order (/, <>, and/or, min/max/abs, elementary functions, matrix product). The if-expression and if-equation folds give ite(c1,e1,ite(c2,e2,...else)) for 1-4 conditions (first true branch wins), the residual is left - right, and ForLoop's values are exactly Modelica's start:step:stop range for all integers. A bounded replay evaluates real residuals per operator, branch pattern and range.",
-    "note": "CasADi's numeric semantics are assumed; user functions, interpolation and array layout are outside the contracts.",
+    "text": "exitExpression is executed for every operator of the statement against the interface of the installed CasADi (introspected each run): the dispatch reaches an existing method that denotes the Modelica operator on the operands in order (/, <>, and/or, min/max/abs, elementary functions, matrix product). The if-expression and if-equation folds give ite(c1,e1,ite(c2,e2,...else)) for 1-4 conditions (first true branch wins), the residual is left - right, and ForLoop's values are exactly Modelica's start:step:stop range for all integers. exitForEquation / exitForStatement map one body function over every loop value with each formal (index, indexed symbols, free symbols) bound to its own actual and the per-iteration assignments emitted iteration by iteration; exitIfStatement folds first-true-wins per variable; get_function gives algorithm sections sequential-assignment semantics (statement k sees the values assigned before it) with inputs/outputs in declaration order; exitEquation discards surplus function outputs from the end. A bounded replay evaluates real residuals per operator, branch pattern and range.",
+    "note": "CasADi's numeric semantics (incl. Function.map / substitute) are assumed; interpolation, array layout and delayed symbols in for-loops are outside the contracts; list shapes are enumerated.",
     "technique": "contract-based deductive verification: symbolic execution with provenance-recording CasADi terms and introspected interface facts, integer VCs for the loop range, z3",
 }
